@@ -104,7 +104,7 @@ func Execute(sc Scenario) *Run {
 	for i, op := range sc.Ops {
 		run := func(i int, op HubOp) {
 			rec := OpRec{Op: op, Start: time.Since(f.start), StateBefore: -1}
-			if op.K == "cancel" && op.X != op.Y && !f.Nodes[op.X].IsDown() {
+			if (op.K == "cancel" || op.K == "unregister") && op.X != op.Y && !f.Nodes[op.X].IsDown() {
 				if c := f.Nodes[op.X].Hub.VerifRegistry()[f.Nodes[op.Y].SKI]; c != nil {
 					st, _ := c.ShipHandshakeState()
 					rec.Conn, rec.StateBefore = c, int(st)
